@@ -16,12 +16,17 @@ struct Lin {
     min_n: usize,
 }
 const GAMMAS: [f64; 8] = [0.0, 0.1, 0.3, 0.5, 0.7, 0.8, 0.9, 0.99];
+/// gamma for parameter p in 0..48: the eight of the DC grid, then forty more spread over [0, 0.99)
+fn gamma_of(p: usize) -> f64 {
+    let p = p % 48;
+    if p < 8 { GAMMAS[p] } else { (p - 8) as f64 * 0.02475 }
+}
 const LINEAR: [Lin; 10] = [
     Lin { name: "Sma", mk: |n, _| Spec::Sma(echo(), n), min_n: 1 },
     Lin { name: "Ema", mk: |n, _| Spec::Ema(echo(), n), min_n: 1 },
     Lin { name: "Alma", mk: |n, _| Spec::Alma(echo(), n), min_n: 1 },
     Lin { name: "Cumulative", mk: |n, _| Spec::Cumulative(echo(), n), min_n: 1 },
-    Lin { name: "LaguerreFilter", mk: |_, p| Spec::LaguerreFilter(echo(), GAMMAS[p % 8]), min_n: 1 },
+    Lin { name: "LaguerreFilter", mk: |_, p| Spec::LaguerreFilter(echo(), gamma_of(p)), min_n: 1 },
     Lin { name: "SuperSmoother", mk: |n, _| Spec::SuperSmoother(echo(), n), min_n: 1 },
     Lin { name: "RoofingFilter", mk: |n, p| Spec::Roofing(echo(), n, 1 + p % 6), min_n: 2 },
     Lin { name: "CyberCycle", mk: |n, _| Spec::CyberCycle(echo(), n), min_n: 3 },
@@ -227,7 +232,7 @@ pub fn fuzz_decode(u: &mut arbitrary::Unstructured) -> Option<(String, Case)> {
 
 pub fn clauses() -> Vec<Clause> {
     let mut v = vec![];
-    let g = "N from the view's minimum to 20 (thorough 64) with boundary bias, gamma grid for LaguerreFilter, M in 1..6 for RoofingFilter, Ema::with_alpha with weight alpha/(N+1) = j/8 (j = 1..15), Alma::new_custom over sigma in {0.5..12} x offset in {0..1}; two grammar streams x, y of 3N+16 values on the 1/8 grid, y = -x on a generated segment (so the combined stream and the filter state pass through exactly 0), a, b rational incl. 0 and negatives; three instances fed x, y and a x + b y.";
+    let g = "N from the view's minimum to 20 (thorough 64) with boundary bias, gamma from 48 values in [0, 0.99] for LaguerreFilter, M in 1..6 for RoofingFilter, Ema::with_alpha with weight alpha/(N+1) = j/8 (j = 1..15), Alma::new_custom over sigma in {0.5..12} x offset in {0..1}; two grammar streams x, y of 3N+16 values on the 1/8 grid, y = -x on a generated segment (so the combined stream and the filter state pass through exactly 0), a, b rational incl. 0 and negatives; three instances fed x, y and a x + b y.";
     for (i, lin) in LINEAR.iter().enumerate() {
         let heavy = matches!(lin.name, "SuperSmoother" | "RoofingFilter" | "Alma" | "AlmaCustom");
         v.push(Clause::generated("C10", format!("C10/{}/superposition/Q", lin.name), format!("{g} Oracle: out_z = a out_x + b out_y and identical readiness at every step, exactly in Q. Non-trivial: x != y, >= 3 steps compared, >= 2 distinct combined outputs."), if heavy { 500 } else { 1200 }, 30_000, strategy(i, true), check(true)).with_shard(if heavy { 32 } else { 100 }));
